@@ -481,7 +481,7 @@ pub fn e2e_scenario(idx: usize, seed: u64) -> ScenarioResult {
 pub fn run(ctx: &Ctx) -> i32 {
     let tier = ctx.tier;
     let n_comp = tier.pick(24, 64);
-    let n_e2e = tier.pick(300, 20_000);
+    let n_e2e = tier.pick(3_000, 60_000);
     let full = tier == runner::Tier::Thorough;
     let cfg = RunCfg {
         property: "C01",
